@@ -2,6 +2,7 @@ package main
 
 import (
 	"flag"
+	"path/filepath"
 	"fmt"
 	"os"
 	"sort"
@@ -159,6 +160,16 @@ func touchesFiles(ld *Loader, db *ContractDB, fn *ssa.Function, files map[string
 	seen[fn] = true
 	if fn.Pos().IsValid() && files[ld.prog.Fset.Position(fn.Pos()).Filename] {
 		return true
+	}
+	if fn.Synthetic != "" {
+		// a wrapper for a promoted method: it exists (or not) depending on the patched declarations
+		if sp, ok := ld.wrapperPkg[fn]; ok {
+			for p := range files {
+				if strings.HasPrefix(p, filepath.Join("/repo", strings.TrimPrefix(sp.Pkg.Path(), modulePath))) {
+					return true
+				}
+			}
+		}
 	}
 	for _, af := range fn.AnonFuncs {
 		if touchesFiles(ld, db, af, files, seen, depth+1) {
